@@ -5,7 +5,13 @@ package api
 
 // Exports for the /verif harness (build tag "verif" only). Add-only.
 
-import "sort"
+import (
+	"sort"
+	"sync/atomic"
+	"time"
+
+	"github.com/evanw/esbuild/internal/fs"
+)
 
 // VerifRebuildForWatch rebuilds the context with watch data collection switched on (without starting
 // the polling goroutine) and returns the result together with a function that evaluates the watch
@@ -28,3 +34,53 @@ func VerifRebuildForWatch(ctx BuildContext) (BuildResult, func() []string) {
 		return dirty
 	}
 }
+
+// VerifWatcher is a hand-built watcher (no build context, no file system, no logging) for the "watchloop"
+// correspondence kernel. The methods below call the real setWatchData / tryToFindDirtyPath / start / stop and
+// copy the private lists out; none of them takes w.mutex, so that Backing can be called from inside a predicate
+// (the poll holds the mutex then). The caller must not use them concurrently with a running goroutine except
+// Backing and RequestStop from inside a predicate or the rebuild callback.
+type VerifWatcher struct{ w *watcher }
+
+func VerifNewWatcher(delayInMS int, rebuild func() map[string]func() string) *VerifWatcher {
+	v := &VerifWatcher{w: &watcher{delayInMS: time.Duration(delayInMS)}}
+	v.w.rebuild = func() fs.WatchData { return fs.WatchData{Paths: rebuild()} }
+	return v
+}
+
+func (v *VerifWatcher) SetWatchData(paths map[string]func() string) {
+	v.w.setWatchData(fs.WatchData{Paths: paths})
+}
+
+func (v *VerifWatcher) TryToFindDirtyPath() string { return v.w.tryToFindDirtyPath() }
+
+// State returns copies of itemsToScan and recentItems, and itemsPerIteration.
+func (v *VerifWatcher) State() (itemsToScan []string, recentItems []string, itemsPerIteration int) {
+	return append([]string{}, v.w.itemsToScan...), append([]string{}, v.w.recentItems...), v.w.itemsPerIteration
+}
+
+// Backing returns the first len(data.Paths) slots of the array behind itemsToScan: after a refill these hold the
+// complete shuffled order, and the polls that follow only re-slice it. nil if the array is shorter than that.
+func (v *VerifWatcher) Backing() []string {
+	n := len(v.w.data.Paths)
+	if n > cap(v.w.itemsToScan) {
+		return nil
+	}
+	return append([]string{}, v.w.itemsToScan[:n]...)
+}
+
+// Inject overwrites the private lists (to start a poll from an arbitrary, possibly inconsistent, state).
+func (v *VerifWatcher) Inject(itemsToScan []string, recentItems []string, itemsPerIteration int) {
+	v.w.itemsToScan = append([]string{}, itemsToScan...)
+	v.w.recentItems = append([]string{}, recentItems...)
+	v.w.itemsPerIteration = itemsPerIteration
+}
+
+func (v *VerifWatcher) Start() { v.w.start() }
+func (v *VerifWatcher) Stop()  { v.w.stop() }
+
+// RequestStop stores what stop() stores, without waiting for the goroutine (so it can be called from inside it).
+func (v *VerifWatcher) RequestStop() { atomic.StoreInt32(&v.w.shouldStop, 1) }
+
+// Wait waits for the goroutine to leave its loop (the second half of stop()).
+func (v *VerifWatcher) Wait() { v.w.stopWaitGroup.Wait() }
